@@ -213,6 +213,23 @@ impl WedgeExec {
                             let _ = s.write_all(req.as_bytes());
                             classify(&http::read_all(&mut s, DEADLINE))
                         }
+                        "verbx" => {
+                            // verbx:<VERB>:<utf8|bin|ascii>:<n>
+                            let parts: Vec<&str> = arg.split(':').collect();
+                            let pat: &[u8] = match parts.get(1).copied() {
+                                Some("utf8") => &[0xc3, 0xa9],
+                                Some("bin") => &[0x80, 0xff],
+                                _ => b"ab",
+                            };
+                            let reps: usize = parts.get(2).and_then(|x| x.parse().ok()).unwrap_or(0);
+                            let mut req = format!("{} /", parts.first().copied().unwrap_or("PUT")).into_bytes();
+                            for _ in 0..reps {
+                                req.extend_from_slice(pat);
+                            }
+                            req.extend_from_slice(b" HTTP/1.1\r\nHost: localhost\r\n\r\n");
+                            let _ = s.write_all(&req);
+                            classify(&http::read_all(&mut s, DEADLINE))
+                        }
                         "reset" => {
                             let n = n.min(GET.len() - 1);
                             let _ = s.write_all(&GET[..n]);
@@ -272,7 +289,14 @@ pub fn random_client(rng: &Prng) -> String {
         }
         3 | 4 => format!("cut:{}", *rng.pick(&[0u64, 1, 3, 4, 20, GET.len() as u64 - 1, GET.len() as u64 - 2])),
         5 => format!("long:{}", *rng.pick(&[2047u64, 2048, 2049, 4096, 100, 10000])),
-        6 => format!("verb:{}", *rng.pick(&["POST", "HEAD", "PUT", "get", "GETX", "OPTIONS"])),
+        6 => {
+            if rng.chance(1, 2) {
+                format!("verb:{}", *rng.pick(&["POST", "HEAD", "PUT", "get", "GETX", "OPTIONS"]))
+            } else {
+                // a request line that is long and not ASCII (accented or binary path)
+                format!("verbx:{}:{}:{}", *rng.pick(&["PUT", "POST", "DELETE"]), *rng.pick(&["utf8", "bin", "ascii", "utf8", "bin"]), *rng.pick(&[1u32, 29, 30, 31, 32, 60, 61, 200, 900]))
+            }
+        }
         7 | 8 => format!("reset:{}", *rng.pick(&[0u64, 4, 20, GET.len() as u64 - 1])),
         9 => "getreset".into(),
         10 => "idle".into(),
@@ -289,7 +313,7 @@ pub fn generate(out: &mut Out, rng: &Prng, thorough: bool, workdir: &Path) {
     let st = random_state(rng);
     let parsed: ObservableState = serde_json::from_str(&st.json()).expect("state");
     let mut ex = WedgeExec::new(serde_json::to_vec(&parsed).unwrap());
-    for _ in 0..scenarios {
+    for sc in 0..scenarios {
         let mut emit = |ex: &mut WedgeExec, out: &mut Out, line: String| -> String {
             let o = ex.exec(&line, workdir);
             // oracle, on the implementation alone
@@ -316,7 +340,16 @@ pub fn generate(out: &mut Out, rng: &Prng, thorough: bool, workdir: &Path) {
         emit(&mut ex, out, "EXP new".into());
         let k = 1 + rng.below(4);
         let mut dead = false;
+        if sc % 4 == 1 {
+            // a non-GET request with a long accented or binary request line, then the usual mix
+            let line = format!("EXP c verbx:{}:{}:{} {}", *rng.pick(&["PUT", "POST", "PATCH"]), *rng.pick(&["utf8", "bin"]), *rng.pick(&[30u32, 31, 60, 200]), random_obs(rng));
+            let o = emit(&mut ex, out, line);
+            dead = o.contains("exited");
+        }
         for _ in 0..k {
+            if dead {
+                break;
+            }
             let line = format!("EXP c {} {}", random_client(rng), random_obs(rng));
             let o = emit(&mut ex, out, line);
             if o.contains("exited") {
